@@ -67,7 +67,7 @@ int g_rm_level; uint64_t g_rm_number;
 int g_apply_af, g_apply_indel, g_apply_rm, g_apply_complete, g_apply_in_err, g_apply_shut; size_t g_apply_pos;
 unsigned g_broadcasts;
 /* snapshots */
-ldb_snapshot_t g_snap1, g_snap2; uint64_t g_ss; int g_ss_checked;
+uint64_t g_ss; int g_ss_checked;
 /* misc */
 ldb_cstate_t *g_state; int g_work;
 ldb_compaction_t g_c; ldb_versions_t g_versions; ldb_comparator_t g_ucmp; ldb_readopt_t g_ropt;
@@ -81,8 +81,9 @@ static void world_moves_on(void) {
   uint64_t adv = nondet_u64();
   __CPROVER_assume(adv < (1ull << 40));
   g_db->versions->last_sequence += adv;
-  g_snap1.sequence = nondet_u64(); g_snap2.sequence = nondet_u64();
-  g_db->snapshots.head.next = nondet_int() ? &g_db->snapshots.head : nondet_int() ? &g_snap1 : &g_snap2;
+  /* (through the real list operations, so that whatever the list caches stays consistent) */
+  if (nondet_int()) (void)ldb_snaplist_new(&g_db->snapshots, g_db->versions->last_sequence);
+  if (nondet_int() && !ldb_snaplist_empty(&g_db->snapshots)) ldb_snaplist_delete(&g_db->snapshots, ldb_snaplist_oldest(&g_db->snapshots));
 }
 void ldb_mutex_lock(ldb_mutex_t *m) { __CPROVER_assert(m == &g_db->mutex && !g_held, "lock: DB mutex not held"); g_held = 1; g_locks++; }
 void ldb_mutex_unlock(ldb_mutex_t *m) {
@@ -420,14 +421,19 @@ void h_work(void) {
       __CPROVER_assume(e_uid[i - 1] < e_uid[i] || (e_uid[i - 1] == e_uid[i] && e_seq[i - 1] > e_seq[i]));
   }
   g_in_err = LDB_OK;
-  /* snapshot list: 0, 1 or 2 live snapshots, oldest first (snp.* units: the list is ordered by sequence) */
-  nsnap = nondet_int(); __CPROVER_assume(nsnap >= 0 && nsnap <= 2);
-  g_snap1.sequence = nondet_u64(); g_snap2.sequence = nondet_u64();
-  __CPROVER_assume(g_snap1.sequence <= g_snap2.sequence && g_snap2.sequence <= g_versions.last_sequence);
-  ldb_snaplist_init(&db->snapshots);
-  if (nsnap >= 1) { db->snapshots.head.next = &g_snap1; g_snap1.prev = &db->snapshots.head; g_snap1.next = &db->snapshots.head; db->snapshots.head.prev = &g_snap1; }
-  if (nsnap == 2) { g_snap1.next = &g_snap2; g_snap2.prev = &g_snap1; g_snap2.next = &db->snapshots.head; db->snapshots.head.prev = &g_snap2; }
-  g_ss = nsnap ? g_snap1.sequence : g_versions.last_sequence;
+  /* snapshot list: built by the REAL list operations (so whatever the list caches is consistent): up to 3 snapshots taken at
+   * non-decreasing sequences (two may share one: no write in between), then any one of them may have been released already */
+  {
+    uint64_t sq[3]; const ldb_snapshot_t *sp[3]; int live[3], j, del;
+    nsnap = nondet_int(); __CPROVER_assume(nsnap >= 0 && nsnap <= 3);
+    for (j = 0; j < 3; j++) sq[j] = nondet_u64();
+    __CPROVER_assume(sq[0] <= sq[1] && sq[1] <= sq[2] && sq[2] <= g_versions.last_sequence);
+    ldb_snaplist_init(&db->snapshots);
+    for (j = 0; j < 3; j++) { live[j] = j < nsnap; sp[j] = live[j] ? ldb_snaplist_new(&db->snapshots, sq[j]) : NULL; }
+    del = nondet_int(); __CPROVER_assume(del >= -1 && del < nsnap);
+    if (del >= 0) { ldb_snaplist_delete(&db->snapshots, sp[del]); live[del] = 0; }
+    g_ss = live[0] ? sq[0] : live[1] ? sq[1] : live[2] ? sq[2] : g_versions.last_sequence;
+  }
   next0 = g_next_file;
 
   state = ldb_cstate_create(&g_c);
